@@ -66,7 +66,7 @@ def run(chk, replay=None):
     with ThreadPoolExecutor(max_workers=3) as ex:
         f_main = ex.submit(tlc.run, "ExprOps_MC", X.class_cfg(sigs, leafs=("x", "y", "z") if tier == "thorough" else ("x", "y")),
                            workers=3, fast_start=False, timeout=1700)
-        f_cov = ex.submit(tlc.run, "ExprOps_MC", X.class_cfg(sigs, init="ClassInitD1", leafs=("x", "y")), workers=1, coverage=True, timeout=600)
+        f_cov = ex.submit(tlc.run, "ExprOps_MC", X.class_cfg(sigs, init="ClassInitD1", leafs=("x", "y"), full_quantification=True), workers=1, coverage=True, timeout=600)
         f_models = ex.submit(build_models, tier)
         res, cov = f_main.result(), f_cov.result()
     chk.add_tlc("laws_exhaustive", res)
